@@ -13,7 +13,7 @@ RULE = ("chains spread over 1..300 (thorough: up to 3000) blk files in layouts w
         "files must be a subset of the files that still hold a block of a higher height (computed from the full index); (2) black-box: "
         "N* = smallest RLIMIT_NOFILE with which the single-file layout of the same chain succeeds (bisection), then every disjoint-span "
         "layout must succeed under N*+2 and every pairwise-interleaved layout under N*+3; outputs always compared with the model. "
-        "distinct = (layout kind, #files class, range kind, observation kind) signatures")
+        "Ranged runs include --verify ranges that begin right behind the last block of a file. distinct = (layout kind, #files class, range kind, observation kind) signatures")
 
 
 def build_layout(rng, chain, kind, nfiles):
